@@ -402,6 +402,7 @@ def run(rep, tier):
     rep.rule('R11c', 'success path returns 0 and prints an entry point\'s return value', floor=7)
     rep.rule('R11e', 'the weight is printed in one number format for every option combination', floor=3)
     rep.rule('R11d', '--cores=0 ("all cores", a valid option value) never reaches the TBB knob as 0', floor=2)
+    rep.rule('R04c', 'the MPI demo computes the same basis for every process count: the rank slices of the library functions it instantiates are exact partitions (shared with C04)', floor=0)
     rep.rule('R07l', 'the demo programs (and the library code they instantiate) do not divide by a collection size that is zero for a valid file (a forest): SIGFPE is not exit status 0', floor=0)
     tus = env.demo_tus()
     if len(tus) < 4:
@@ -413,8 +414,13 @@ def run(rep, tier):
         ms = common.mains(prog)
         if not ms:
             rep.analysis_broken('%s has no main' % tu)
-        from . import c07
+        from . import c07, c04
         c07.r07l(rep, prog)
+        sub4 = type(rep)(rep.prop, rep.tier)
+        c04.check_slices(sub4, prog)
+        for i in sub4.instances.values():
+            if i.rule == 'R04c':
+                rep.add(i.rule, i.site, i.function, i.what, i.status, i.detail, key=i.key)
         for m in ms:
             m = common.driver_body(prog, m)
             check_main(rep, prog, m, algo)
